@@ -43,6 +43,7 @@ func init() {
 
 type confWorld struct {
 	base, root, outside string
+	sibling             string // base/efivars-evil: outside the root, its name starts with the root's
 	guids               [][16]byte
 	inside              map[string]string // payload -> path of the regular file inside the root
 }
@@ -103,6 +104,20 @@ func buildConfWorld(sc *scratch, r *rand.Rand) *confWorld {
 	ln("..", "sub/up")
 	ln("../../outside", "sub/out")
 	ln("..", "dotdot")
+	// Appended by the audit (after every draw above, so the tree above and its canaries keep their
+	// contents): a directory NEXT TO the root whose name begins with the root's name, links from
+	// inside the root to it, and a second name for the root itself.
+	w.sibling = filepath.Join(w.base, "efivars-evil")
+	must(os.MkdirAll(w.sibling, 0o755))
+	for _, g := range w.guids {
+		s := "-" + guidText(g)
+		out(filepath.Join(w.sibling, "canary"+s))
+		out(filepath.Join(w.sibling, "Plain"+s))
+		ln("../efivars-evil/canary"+s, "LinkSib"+s)
+		ln(filepath.Join(w.sibling, "canary"+s), "LinkSibAbs"+s)
+	}
+	ln("../efivars-evil", "dsib")
+	must(os.Symlink("efivars", filepath.Join(w.base, "rootlink")))
 	return w
 }
 
